@@ -341,7 +341,8 @@ func (db *InstructionDB) GetPrefixSize(opcode string, operands ng_operand.Operan
 		prefix66Size = getPrefix66SizeForInOut(upperOpcode, operands) // ヘルパー関数を呼び出し
 	} else {
 		// IN/OUT 以外の命令は従来のロジックを使用
-		if operands.Require66h() {
+		// MOV to/from CRn is always 32-bit: the emitter writes no 66h for it.
+		if operands.Require66h() && !operands.IsControlRegisterOperation() {
 			prefix66Size = 1
 		}
 	}
